@@ -55,6 +55,15 @@ func FamilyShapeSkip(thorough bool) []*Conv {
 		add(shape{Src: pos.src, Tgt: pos.tgt, Name: "skipzero_" + pos.name, NeedZero: true,
 			Decls: []string{"type PFXSz struct {\n\tName string\n\tRefs []int\n}\ntype PFXSzIn struct {\n\tByKey map[string]*PFXSz\n\tDeep **PFXSz\n\tOne *PFXSz\n}\ntype PFXSzOut struct {\n\tByKey map[string]PFXSz\n\tDeep *PFXSz\n\tOne PFXSz\n}"}})
 	}
+	// skipCopySameType and T -> *T of one T: the pointer is new, it never points into the source (its backing
+	// array, a field of the struct behind a pointer source, the loop variable)
+	for _, pos := range []struct{ name, src, tgt string }{
+		{"elem_array", "[][2]int", "[]*[2]int"}, {"elem_struct", "[]PFXSa", "[]*PFXSa"}, {"mapval_slice", "map[string][]int", "map[string]*[]int"},
+		{"ptr_field", "*PFXSaIn", "*PFXSaOut"}, {"value_field", "PFXSaIn", "PFXSaOut"}, {"elem_field", "[]PFXSaIn", "[]PFXSaOut"}, {"elem_int", "[]int", "[]*int"},
+	} {
+		add(shape{Src: pos.src, Tgt: pos.tgt, Name: "skipaddr_" + pos.name,
+			Decls: []string{"type PFXSa struct {\n\tN int\n\tL []int\n}\ntype PFXSaIn struct {\n\tF []int\n\tA [2]int\n\tS PFXSa\n\tN int\n}\ntype PFXSaOut struct {\n\tF *[]int\n\tA *[2]int\n\tS *PFXSa\n\tN *int\n}"}})
+	}
 	// the same named type (identical on both sides) at several positions of one method
 	add(shape{Src: "PFXTwS", Tgt: "PFXTwT", Name: "same_named_twice",
 		Decls: []string{"type PFXStamp struct{ Sec int64 }\ntype PFXTwS struct {\n\tCreated PFXStamp\n\tUpdated PFXStamp\n\tAll []PFXStamp\n\tN PFXTwA\n}\ntype PFXTwT struct {\n\tCreated PFXStamp\n\tUpdated PFXStamp\n\tAll []PFXStamp\n\tN PFXTwB\n}\ntype PFXTwA int\ntype PFXTwB int"}})
@@ -337,6 +346,25 @@ func FamilyUpdate(thorough bool) []*Conv {
 			MethodLines: append([]string{"update target", "ignore Keep Only", "map Stamp | PFXGen"}, lines...),
 			Spec:        &Spec{Update: u, Pairs: map[string]*PairSpec{"PFXIn→PFXOut": {Fields: map[string]*FieldSpec{"Keep": {Ignore: true}, "Only": {Ignore: true}, "Stamp": {Fn: "PFXGen", FnNoSource: true}}}}},
 		})
+		// ... also behind a pointer source (a nil source leaves every field alone, the generated ones included), and
+		// with a generator that may fail
+		for vi, variant := range []struct{ name, src, fn, res string }{
+			{"ptr", "*PFXIn", "func PFXGen() string { return \"\" }\n", ""},
+			{"ptr_fallible", "*PFXIn", "func PFXGen() (string, error) { return \"\", nil }\n", "error"},
+			{"value_fallible", "PFXIn", "func PFXGen() (string, error) { return \"\", nil }\n", "error"},
+		} {
+			uu := *u
+			out = append(out, &Conv{
+				ID:          fmt.Sprintf("update/noargfunc_%s/c%d", variant.name, cats),
+				Family:      "update",
+				Format:      []string{"struct", "function", "variable"}[(n+vi)%3],
+				Params:      "source " + variant.src + ", target *PFXOut",
+				Results:     variant.res,
+				Decls:       "type PFXIn struct {\n\tA int\n\tKeep int\n}\ntype PFXOut struct {\n\tA int\n\tStamp string\n\tKeep int\n\tOnly string\n}\n" + variant.fn,
+				MethodLines: append([]string{"update target", "ignore Keep Only", "map Stamp | PFXGen"}, lines...),
+				Spec:        &Spec{Update: &uu, Pairs: map[string]*PairSpec{"PFXIn→PFXOut": {Fields: map[string]*FieldSpec{"Keep": {Ignore: true}, "Only": {Ignore: true}, "Stamp": {Fn: "PFXGen", FnNoSource: true}}}}},
+			})
+		}
 	}
 	// the update argument declared through a named pointer type / an alias of the struct: the field settings of the
 	// method still address the struct
@@ -654,6 +682,54 @@ func FamilyDefault(thorough bool) []*Conv {
 			}
 		}
 	}
+	// default (with and without default:update) on pointer methods of which one struct is an unnamed type: the
+	// method still converts its pair itself, on top of FUNC's result
+	{
+		un := "struct {\n\tName string\n\tAge int\n\tL []int\n}"
+		for i, sh := range []struct{ name, src, tgt, fres string }{
+			// (FUNC's result is spelled through an alias so that the function stays a one-liner the replay can program)
+			{"unnamed_source", "*" + un, "*PFXOut", "*PFXOut"}, {"unnamed_target", "*PFXIn", "*" + un, "*PFXUn"},
+			{"unnamed_value_source", un, "*PFXOut", "*PFXOut"}, {"unnamed_source_value_target", "*" + un, "PFXOut", "PFXOut"},
+		} {
+			for _, upd := range []bool{false, true} {
+				for _, zero := range []bool{false, true} {
+					if zero && !upd {
+						continue
+					}
+					n++
+					u := &UpdateSpec{DefaultFn: "PFXNew", DefaultUpdate: upd}
+					lines := []string{"default PFXNew"}
+					if upd {
+						lines = append(lines, "default:update")
+					}
+					if zero {
+						lines = append(lines, "update:ignoreZeroValueField:basic")
+						u.SkipBasic = true
+					}
+					body := "return &" + strings.TrimPrefix(sh.fres, "*") + "{}"
+					if !strings.HasPrefix(sh.fres, "*") {
+						body = "return " + sh.fres + "{}"
+					}
+					cv := &Conv{
+						ID:          fmt.Sprintf("default/%s_upd%v_zero%v", sh.name, upd, zero),
+						Family:      "default",
+						Format:      []string{"struct", "function", "variable"}[(n+i)%3],
+						Params:      "source " + sh.src,
+						Results:     sh.tgt,
+						Decls:       "type PFXUn = " + un + "\ntype PFXIn struct {\n\tName string\n\tAge int\n\tL []int\n}\ntype PFXOut struct {\n\tName string\n\tAge int\n\tL []int\n}\n" + fmt.Sprintf("func PFXNew() %s { %s }\n", sh.fres, body),
+						MethodLines: lines,
+						Spec:        &Spec{Update: u},
+						Bounds:      &Bounds{MaxSlice: 1, MaxMap: 1, RecDepth: 1},
+					}
+					if strings.HasPrefix(sh.src, "*") && !strings.HasPrefix(sh.tgt, "*") {
+						cv.MethodLines = append(cv.MethodLines, "useZeroValueOnPointerInconsistency")
+						cv.Spec.ZeroOnNil = true
+					}
+					out = append(out, cv)
+				}
+			}
+		}
+	}
 	// default (with and without default:update) on pointer methods whose pointee is not a struct
 	for i, np := range []struct{ name, t, zero string }{
 		{"int", "int", "0"}, {"strs", "[]string", "nil"}, {"map", "map[string]int", "nil"}, {"named", "PFXNum", "0"},
@@ -869,6 +945,35 @@ func FamilySameType(thorough bool) []*Conv {
 			add(shape{Src: pos.src, Tgt: pos.tgt, Name: fmt.Sprintf("addr_same_%s_%d", pos.name, i), Decls: []string{d}})
 		}
 		add(shape{Src: fmt.Sprintf("*PFXAd%d", k), Tgt: fmt.Sprintf("PFXAd%d", k), Name: fmt.Sprintf("deref_same_%d", i), Decls: []string{d}, NeedZero: true})
+	}
+	// targets of interface type: goverter has no rule for them; should one be accepted, the boxed value must not
+	// share memory with the source either (either outcome of generation is fine, sharing is not)
+	{
+		d := "type PFXBx struct {\n\tL []int\n\tP *int\n\tN int\n}\n"
+		for _, pos := range []struct{ name, src, tgt string }{
+			{"struct_top", "PFXBx", "any"}, {"struct_field", "struct{ V PFXBx; X int }", "struct{ V any; X int }"}, {"struct_elem", "[]PFXBx", "[]any"},
+			{"slice_field", "struct{ V []int }", "struct{ V any }"}, {"ptr_mapval", "map[string]*PFXBx", "map[string]any"}, {"struct_stringer", "struct{ V PFXBx }", "struct{ V interface{ String() string } }"},
+		} {
+			cv := shapeConv("sametype", shape{Src: pos.src, Tgt: pos.tgt, Name: "iface_target_" + pos.name, Decls: []string{d + "func (b PFXBx) String() string { return \"\" }\n"}}, formats[fi%3], nil, nil)
+			fi++
+			cv.AnyOutcome, cv.Solo = true, true
+			out = append(out, cv)
+		}
+	}
+	// ... and *T -> T where T is a defined reference type (map, slice, pointer) or a struct made of such fields:
+	// dereferencing copies the header only, the content still has to be copied
+	{
+		d := "type PFXLab map[string]string\ntype PFXIDs []int\ntype PFXRef *int\ntype PFXMeta struct {\n\tL PFXLab\n\tI PFXIDs\n\tR PFXRef\n\tN int\n}\n"
+		for _, t := range []string{"PFXLab", "PFXIDs", "PFXRef", "PFXMeta"} {
+			for _, pos := range []struct{ name, src, tgt string }{
+				{"top", "*" + t, t}, {"field", "struct{ V *" + t + "; X int }", "struct{ V " + t + "; X int }"}, {"elem", "[]*" + t, "[]" + t},
+			} {
+				if !thorough && pos.name == "elem" && t != "PFXMeta" {
+					continue
+				}
+				add(shape{Src: pos.src, Tgt: pos.tgt, Name: "deref_named_ref_" + strings.ToLower(t[3:]) + "_" + pos.name, Decls: []string{d}, NeedZero: true})
+			}
+		}
 	}
 	// a small unnamed value struct (basic fields only), identical on both sides, converted to a pointer to it
 	for i, inner := range []string{"struct{ X, Y int }", "struct{ S string }", "struct {\n\tA int `json:\"a\"`\n\tB bool\n}"} {
